@@ -709,6 +709,9 @@ async fn run_compio(ops: &[Op], root: &Path) -> Rec {
     let mut slots: Vec<Option<Slot>> = (0..NSLOTS).map(|_| None).collect();
     let mut pipes: Vec<Option<CPipe>> = (0..NPIPES).map(|_| None).collect();
     for op in ops {
+        if std::env::var("C08_DEBUG").is_ok() {
+            eprintln!("  compio op {:?}", op);
+        }
         match op {
             Op::Open { slot, path, bits, seq } => {
                 slots[*slot] = None;
@@ -975,7 +978,12 @@ fn run(case: &[u64]) -> Result<Vec<u64>, BadCase> {
     let mut out: Vec<u64> = a.full.iter().flatten().copied().collect();
     for mode in [Mode::Poll, Mode::Fallback] {
         let (flag, idx) = match compio_run(&ops, mode) {
-            Ok(r) => first_diff(&a.full, &r.full),
+            Ok(r) => {
+                if std::env::var("C08_DEBUG").is_ok() {
+                    eprintln!("A {:?}\nX {:?}", a.full, r.full);
+                }
+                first_diff(&a.full, &r.full)
+            }
             Err(None) => (0, 9998),
             Err(Some(_)) => (0, 9999),
         };
@@ -985,6 +993,9 @@ fn run(case: &[u64]) -> Result<Vec<u64>, BadCase> {
     let dir = fresh_dir("d");
     let d = run_os(&ops, &dir);
     let _ = std::fs::remove_dir_all(&dir);
+    if std::env::var("C08_DEBUG").is_ok() {
+        eprintln!("A {:?}\nD {:?}", a.proj, d.proj);
+    }
     let (flag, idx) = first_diff(&a.proj, &d.proj);
     out.push(flag);
     out.push(idx);
